@@ -489,7 +489,9 @@ static void exec_op(RunState &rs, int i) {
 		static const uint16_t PC[4] = {0x0000, 0x0200, 0x0300, 0x0300};
 		const uint16_t cw = o.env >= 0 ? (uint16_t)(0x007F | PC[(env >> 13) & 3] | (((env >> 8) & 3) << 10)) : (uint16_t)0x037F;
 		seam::lib_enter(&ctx);
+		__asm__ volatile("emms"); // a known register stack (all empty) on entry: reference-model computations run the same library and must not pre-dirty it
 		seam::set_x87cw(cw);
+		const seam::X87Env x87_before = seam::get_x87env();
 		seam::set_mxcsr(env);
 		if (o.fault.empty()) {
 			if (o.kind == HASH) randomx_calculate_hash(vm, in, inlen, out);
@@ -508,11 +510,16 @@ static void exec_op(RunState &rs, int i) {
 			} catch (const std::exception &) { threw = true; }
 		}
 		uint32_t after = seam::get_mxcsr();
-		const uint16_t cw_after = seam::get_x87cw();
+		const seam::X87Env x87_after = seam::get_x87env();
 		seam::set_mxcsr(0x1F80);
+		if (x87_after.tw != x87_before.tw) __asm__ volatile("emms"); // the harness must not inherit a register stack left in MMX state
 		seam::set_x87cw(0x037F);
 		seam::lib_exit();
-		if (o.kind == HASH && cw_after != cw && !threw) { char d[64]; snprintf(d, sizeof d, "before=0x%04x after=0x%04x", cw, cw_after); viol("MXCSR_CHANGED", "hash changed the x87 control word vm=" + flagstr(rs.Vflags[o.v] & ~128u), d, i); }
+		if (o.kind == HASH && !threw && (x87_after.cw != x87_before.cw || x87_after.sw != x87_before.sw || x87_after.tw != x87_before.tw)) {
+			char d[120]; snprintf(d, sizeof d, "cw 0x%04x->0x%04x sw 0x%04x->0x%04x tw 0x%04x->0x%04x", x87_before.cw, x87_after.cw, x87_before.sw, x87_after.sw, x87_before.tw, x87_after.tw);
+			const char *what = x87_after.cw != x87_before.cw ? "control word" : x87_after.tw != x87_before.tw ? "tag word (register stack)" : "status word";
+			viol("MXCSR_CHANGED", std::string("hash changed the x87 ") + what + " vm=" + flagstr(rs.Vflags[o.v] & ~128u), d, i);
+		}
 		if (edge_out) {
 			memcpy(res.digest, edge_out, 32);
 			for (int k = 1; k <= 32; ++k) if (edge_out[-k] != 0xC9) { viol("OUTPUT_UNDERRUN", std::string(kind_name(o.kind)) + " wrote in front of the 32-byte output buffer", "", i); break; }
@@ -647,6 +654,10 @@ Report execute(const Plan &plan_in, const Options &opt) {
 	for (auto &k : plan.inputs) rs.inputb.push_back(k.bytes());
 	// model digests, computed before the simulated history starts
 	rs.expd.resize(plan.ops.size());
+	// (not for the warm-up history: its calls are the first library calls of the process, and a reference-model call - made
+	// under the default environment - must not come before them; nothing is judged there anyway)
+	const bool is_warmup = opt.run_index == ~(uint64_t)0;
+	if (is_warmup) for (auto &e : rs.ann.expect) e.has_digest = false;
 	for (size_t i = 0; i < plan.ops.size(); ++i) {
 		const Expect &e = rs.ann.expect[i];
 		if (!e.has_digest) continue;
